@@ -369,6 +369,7 @@ def apply_reference(repo):
         repo.inlined_helpers = inline_new_helpers(repo, full_ref) if full_ref else {}
     except RecursionError:
         repo.inlined_helpers = {}
+    repo.scalarized = scalarize_records(repo, full_ref) if full_ref else {}
     # a function whose tree is identical to the reference needs no translation
     ref = {q: r for q, r in ref.items() if q in repo.funcs and not repo.funcs[q].is_lambda and r.get("digest") != _digest(repo.funcs[q].node)}
     for q in list(repo.inlined_helpers):
@@ -1454,6 +1455,196 @@ def counted_loops(repo, ref):
                     _invalidate(owner)
                     done.setdefault(q, []).append(ast.unparse(t))
                     break
+    return done
+
+
+def scalarize_records(repo, full_ref):
+    """A new private class C (none of its methods is in the reference tree) that only bundles a few fields: constructor without
+    parameters whose body is `self.f = <display or constant>` assignments, methods that touch `self` only as `self.f`.  In a
+    function where a local x is bound exactly once, by `x = C()`, and used only as `x.f` or `x.m(...)`, the object is its fields:
+    `x = C()` becomes `x__f = <initial value>` per field, `x.f` becomes `x__f`, and the method calls are put in place
+    (`x.m(a)` as a statement: the body, which does not return a value; `if x.m(a):` - the statements of m in front of the `if`
+    and m's returned expression as the test; arguments that are not plain names are bound to temporaries first, in order).
+    `y = x__f` as y's only binding, with x__f not used afterwards, makes y the field."""
+    done = {}
+    for q, fi in list(repo.funcs.items()):
+        if fi.is_lambda or q not in full_ref:
+            continue
+        for _round in range(3):
+            cand = None
+            for owner, field, blk in _blocks(fi.node):
+                for i, st in enumerate(blk):
+                    if isinstance(st, ast.Assign) and len(st.targets) == 1 and isinstance(st.targets[0], ast.Name) and isinstance(st.value, ast.Call) and isinstance(st.value.func, ast.Name) \
+                            and not st.value.args and not st.value.keywords and st.value.func.id in fi.module.classes:
+                        cand = (owner, blk, i, st)
+                        break
+                if cand:
+                    break
+            if not cand:
+                break
+            owner, blk, i, st = cand
+            x, ci = st.targets[0].id, fi.module.classes[st.value.func.id]
+            meths = dict(ci.methods)
+            if any(("%s:%s.%s" % (fi.module.name, ci.name, m)) in full_ref for m in meths) or "__init__" not in meths or x in fi.params:
+                break
+            if [b for b in getattr(ci, "bases", []) if getattr(b, "name", "object") != "object"]:
+                break
+            init = meths["__init__"]
+            if len(init.params) != 1:
+                break
+            sp = init.params[0]
+            fields = []
+            ok = True
+            for b in init.node.body:
+                if isinstance(b, ast.Expr) and isinstance(b.value, ast.Constant):
+                    continue
+                if isinstance(b, ast.Expr) and isinstance(b.value, ast.Call) and ast.unparse(b.value).startswith("super(") and ast.unparse(b.value).endswith(".__init__()"):
+                    continue
+                if isinstance(b, ast.Assign) and len(b.targets) == 1 and isinstance(b.targets[0], ast.Attribute) and isinstance(b.targets[0].value, ast.Name) and b.targets[0].value.id == sp \
+                        and not any(isinstance(y, (ast.Name, ast.Call)) for y in ast.walk(b.value)):
+                    fields.append((b.targets[0].attr, ast.unparse(b.value)))
+                    continue
+                ok = False
+            fnames = {f for f, _ in fields}
+            for mname, m in meths.items():
+                if mname == "__init__":
+                    continue
+                if not m.params or m.node.args.vararg or m.node.args.kwarg or m.node.args.kwonlyargs or m.node.args.defaults or m.decorators \
+                        or any(isinstance(y, (ast.Yield, ast.YieldFrom, ast.Lambda, ast.FunctionDef, ast.Global, ast.Nonlocal)) for y in ast.walk(m.node) if y is not m.node):
+                    ok = False
+                    continue
+                for y in ast.walk(m.node):
+                    if isinstance(y, ast.Name) and y.id == m.params[0] and not (isinstance(getattr(y, "_parent", None), ast.Attribute) and y._parent.attr in fnames):
+                        ok = False
+            uses = [n for n in walk_own(fi.node) if isinstance(n, ast.Name) and n.id == x and n is not st.targets[0]]
+            for n in uses:
+                p_ = getattr(n, "_parent", None)
+                if not isinstance(n.ctx, ast.Load) or not isinstance(p_, ast.Attribute):
+                    ok = False
+                elif p_.attr in fnames:
+                    pass
+                elif p_.attr in meths and p_.attr != "__init__" and isinstance(getattr(p_, "_parent", None), ast.Call) and p_._parent.func is p_:
+                    c = p_._parent
+                    if c.keywords or any(isinstance(a_, ast.Starred) for a_ in c.args) or len(c.args) != len(meths[p_.attr].params) - 1:
+                        ok = False
+                else:
+                    ok = False
+            if not ok or not fields:
+                break
+            # method calls, innermost blocks first; repeated until none is left
+            changed = True
+            failed = False
+            counter = [0]
+            recent = {}
+            while changed and not failed:
+                changed = False
+                for owner2, field2, blk2 in _blocks(fi.node):
+                    for j, s2 in enumerate(blk2):
+                        site = None
+                        if isinstance(s2, ast.Expr) and isinstance(s2.value, ast.Call) and isinstance(s2.value.func, ast.Attribute) and isinstance(s2.value.func.value, ast.Name) \
+                                and s2.value.func.value.id == x and s2.value.func.attr in meths:
+                            site = ("stmt", s2.value)
+                        elif isinstance(s2, ast.If):
+                            t = s2.test
+                            neg = isinstance(t, ast.UnaryOp) and isinstance(t.op, ast.Not)
+                            c0 = t.operand if neg else t
+                            if isinstance(c0, ast.Call) and isinstance(c0.func, ast.Attribute) and isinstance(c0.func.value, ast.Name) and c0.func.value.id == x and c0.func.attr in meths:
+                                site = ("test", c0)
+                        if site is None:
+                            continue
+                        kind, c = site
+                        m = meths[c.func.attr]
+                        body = [b for b in m.node.body if not (isinstance(b, ast.Expr) and isinstance(b.value, ast.Constant))]
+                        rets = [y for b in body for y in ast.walk(b) if isinstance(y, ast.Return)]
+                        if kind == "stmt" and (rets and not (len(rets) == 1 and body and body[-1] is rets[0] and (rets[0].value is None or isinstance(rets[0].value, ast.Constant)))):
+                            failed = True
+                            break
+                        if kind == "test" and not (len(rets) == 1 and body and body[-1] is rets[0] and rets[0].value is not None):
+                            failed = True
+                            break
+                        pre, mapping = [], {}
+                        caller_names = {n_ for n_, _ in _bound_names(fi.node)[0]} | set(fi.params)
+                        for pname, a_ in zip(m.params[1:], c.args):
+                            if isinstance(a_, (ast.Name, ast.Constant)):
+                                mapping[pname] = ast.unparse(a_)
+                            elif kind == "stmt" and j == 0 and isinstance(owner2, ast.If) and blk2 is owner2.body and isinstance(a_, ast.Call) and isinstance(a_.func, ast.Attribute) \
+                                    and a_.func.attr == "pop" and len(a_.args) == 1 and not a_.keywords and isinstance(a_.args[0], ast.Name) and _chain(a_.func.value) is not None \
+                                    and "%s[%s]" % (ast.unparse(a_.func.value), a_.args[0].id) in recent.get(id(owner2), {}):
+                                # Q.pop(k) as the first thing under an `if` whose test looked at Q[k] through a temporary: the popped element is that one
+                                pre.append(ast.unparse(a_))
+                                mapping[pname] = recent[id(owner2)]["%s[%s]" % (ast.unparse(a_.func.value), a_.args[0].id)]
+                            else:
+                                counter[0] += 1
+                                tname = "_%s%d" % (pname, counter[0])
+                                pre.append("%s = %s" % (tname, ast.unparse(a_)))
+                                mapping[pname] = tname
+                                if kind == "test" and isinstance(a_, ast.Subscript):
+                                    recent.setdefault(id(s2), {})[ast.unparse(a_)] = tname
+                        for n_, _ in _bound_names(m.node)[0]:
+                            if n_ in caller_names and n_ not in mapping and n_ not in m.params:
+                                mapping[n_] = n_ + "__r"
+                        stmts = body[:-1] if rets else body
+                        src = "\n".join(pre + [ast.unparse(b) for b in stmts]) or "pass"
+                        mod = ast.parse(src)
+                        selfname = m.params[0]
+
+                        class _Fix(ast.NodeTransformer):
+                            def visit_Attribute(self, node):
+                                if isinstance(node.value, ast.Name) and node.value.id == selfname and node.attr in fnames:
+                                    return ast.copy_location(ast.Name(id="%s__%s" % (x, node.attr), ctx=node.ctx), node)
+                                return self.generic_visit(node)
+                        mod = _SubstNames(mapping).visit(_Fix().visit(mod))
+                        fresh = _fresh_stmt(ast.unparse(ast.fix_missing_locations(mod)), s2, owner2)
+                        fresh = [f_ for f_ in fresh if not isinstance(f_, ast.Pass)]
+                        if kind == "test":
+                            e_ = ast.parse(ast.unparse(rets[0].value), mode="eval").body
+                            e_ = _SubstNames(mapping).visit(_Fix().visit(e_))
+                            e_ = ast.parse(("not (%s)" if neg else "%s") % ast.unparse(ast.fix_missing_locations(e_)), mode="eval").body
+                            _install(s2.test, e_)
+                            blk2[j:j] = fresh
+                        else:
+                            blk2[j:j + 1] = fresh or _fresh_stmt("pass", s2, owner2)
+                        _invalidate(owner2)
+                        changed = True
+                        break
+                    if changed or failed:
+                        break
+            if failed or any(isinstance(n, ast.Name) and n.id == x and isinstance(getattr(n, "_parent", None), ast.Attribute) and n._parent.attr in meths and n._parent.attr not in fnames
+                             for n in walk_own(fi.node)):
+                break           # (a call form that is not handled: the function is left half translated and the rules will say so)
+            # fields
+            for n in list(walk_own(fi.node)):
+                if isinstance(n, ast.Attribute) and isinstance(n.value, ast.Name) and n.value.id == x and n.attr in fnames and getattr(n, "_parent", None) is not None:
+                    new = ast.Name(id="%s__%s" % (x, n.attr), ctx=n.ctx)
+                    ast.copy_location(new, n)
+                    new._parent = n._parent
+                    _replace_child(n._parent, n, new)
+                    _invalidate(new)
+            for owner3, field3, blk3 in _blocks(fi.node):
+                for j, s3 in enumerate(blk3):
+                    if s3 is st:
+                        blk3[j:j + 1] = _fresh_stmt("\n".join("%s__%s = %s" % (x, f, v) for f, v in fields), st, owner3)
+                        _invalidate(owner3)
+            # y = x__f as y's only binding, the field not used afterwards: y is the field
+            for f, _v in fields:
+                fn_ = "%s__%s" % (x, f)
+                for owner3, field3, blk3 in _blocks(fi.node):
+                    for j, s3 in enumerate(blk3):
+                        if isinstance(s3, ast.Assign) and len(s3.targets) == 1 and isinstance(s3.targets[0], ast.Name) and isinstance(s3.value, ast.Name) and s3.value.id == fn_:
+                            y = s3.targets[0].id
+                            stores = [n for n in walk_own(fi.node) if isinstance(n, ast.Name) and n.id == y and isinstance(n.ctx, (ast.Store, ast.Del))]
+                            own_ = {id(n) for n in ast.walk(s3)}
+                            later = [n for n in walk_own(fi.node) if isinstance(n, ast.Name) and n.id == fn_ and id(n) not in own_ and _pos(n) > _pos(s3)]
+                            in_loop = _inside(s3, (ast.For, ast.While), fi.node)
+                            if len(stores) == 1 and not later and not in_loop and y not in fi.params:
+                                del blk3[j]
+                                for n in walk_own(fi.node):
+                                    if isinstance(n, ast.Name) and n.id == fn_:
+                                        n.id = y
+                                _invalidate(owner3)
+                                break
+            done.setdefault(q, []).append(ci.name)
+            _clear_analysis_caches()
     return done
 
 
